@@ -206,6 +206,10 @@ type ExecutionPayloadHeader struct {
 }
 
 func (s *ExecutionPayloadHeader) View() *ExecutionPayloadHeaderView {
+	// A RootView is its own tree node: take the nodes from a private copy,
+	// so that the view does not alias the fields of the caller's struct.
+	c := *s
+	s = &c
 	ed, err := s.ExtraData.View()
 	if err != nil {
 		panic(err)
